@@ -265,8 +265,11 @@ def o_history(case):
         if isinstance(ops, Exception):
             guarded(_reraise, ops)
         model.deliver((h.hash(), h.previous_block_hash, h.difficulty) for h in batch)
-        if len(cb_log) != ncb + 1 or [tuple(o) for o in cb_log[-1]] != [tuple(o) for o in ops]:
-            bad("ops:callback-differs", "callback received %r, add_headers returned %r" % (cb_log[ncb:], ops))
+        new_cb = cb_log[ncb:]
+        if not ops and not new_cb:
+            pass        # nothing changed and nobody was called: the statement only speaks of the operations that are sent
+        elif len(new_cb) != 1 or [tuple(o) for o in new_cb[0]] != [tuple(o) for o in ops]:
+            bad("ops:callback-differs", "callback received %r, add_headers returned %r" % (new_cb, ops))
         kinds = set()
         for o in ops:
             if len(o) != 3 or o[1] is None or not hasattr(o[1], "hash"):
